@@ -151,7 +151,7 @@ func (e *Env) tokenSentinels(v *spec.Version, ms []*decodeOneModel) {
 
 const decodeTrusted = "library semantics of strings.Split and == on strings"
 
-var languageRules = []string{"group-emptiness", "struct-layout", "decode-one", "token-split", "vector-split", "token-shape", "level-names", "arm-parser", "arm-value", "duplicate-test", "duplicate-mark", "accept-path", "arm-writes", "reject-path", "no-normalisation", "delegation-first", "token-loop", "deferred-error", "completeness-gate", "result-exclusive", "validity-coverage", "nil-receiver-decode", "code-table", "parse", "decoder-analysis", "decode-skeleton"}
+var languageRules = []string{"decode-rejections", "validity-rejections", "group-emptiness", "struct-layout", "decode-one", "token-split", "vector-split", "token-shape", "level-names", "arm-parser", "arm-value", "duplicate-test", "duplicate-mark", "accept-path", "arm-writes", "reject-path", "no-normalisation", "delegation-first", "token-loop", "deferred-error", "completeness-gate", "result-exclusive", "validity-coverage", "nil-receiver-decode", "code-table", "parse", "decoder-analysis", "decode-skeleton"}
 
 func c07(e *Env) {
 	c := e.C
@@ -176,6 +176,8 @@ func c07(e *Env) {
 	c.Floor("arm-parser", 22)
 	c.Floor("accept-path", 22)
 	c.Floor("reject-path", 30)
+	c.Floor("decode-rejections", 15)
+	c.Floor("validity-rejections", 6)
 }
 
 func c08(e *Env) {
@@ -202,6 +204,8 @@ func c08(e *Env) {
 	c.Floor("arm-parser", 14)
 	c.Floor("accept-path", 14)
 	c.Floor("reject-path", 20)
+	c.Floor("decode-rejections", 12)
+	c.Floor("validity-rejections", 6)
 }
 
 func c09(e *Env) {
@@ -246,9 +250,13 @@ func c10(e *Env) {
 			}
 		}
 		e.namesReaders(v, ls)
+		// what Encode prints must still be what the decoder stored: no other writer of the fields
+		e.writeOwnership(v, ls)
 	}
 	e.versionTables()
-	e.keepRules("names-readers", "encode-order", "encode-emission", "encode-guard", "encode-emissions", "encode-error", "encode-nil", "string-is-encode", "code-table", "canonical-order", "version-table")
+	c.Floor("canonical-order", 3)
+	c.Floor("write-ownership", 36)
+	e.keepRules("write-ownership", "names-readers", "encode-order", "encode-emission", "encode-guard", "encode-emissions", "encode-error", "encode-nil", "string-is-encode", "code-table", "canonical-order", "version-table")
 	c.Floor("encode-order", 6)
 	c.Floor("encode-emission", 36)
 	c.Floor("encode-guard", 36)
@@ -645,7 +653,7 @@ func (e *Env) scoreGate(k *scoreKit, l *facts.Level) {
 		c.Fail("score-gate", l.String()+".Score", "", "method not found")
 		return
 	}
-	leaves, err := ir.Leaves(e.P.SSAFunc(f), ir.LeafOptions{})
+	leaves, err := ir.Leaves(e.P.SSAFunc(f), ir.LeafOptions{Inline: e.inlineHelpers()})
 	if err != nil {
 		c.Undecided("score-gate", fname(f), e.P.Pos(f.Pos()), err.Error())
 		return
@@ -1024,17 +1032,30 @@ func (e *Env) writeOwnership(v *spec.Version, ls []*facts.Level) {
 		}
 		for _, b := range fn.Blocks {
 			for _, in := range b.Instrs {
+				// the outermost field of a level's struct that the written location lies in (m.last.of -> last)
+				ownedField := func(addr ssa.Value) *types.Var {
+					for {
+						switch a := addr.(type) {
+						case *ssa.FieldAddr:
+							f := a.X.Type().Underlying().(*types.Pointer).Elem().Underlying().(*types.Struct).Field(a.Field)
+							if owner[f] != nil {
+								return f
+							}
+							addr = a.X
+						case *ssa.IndexAddr:
+							addr = a.X
+						default:
+							return nil
+						}
+					}
+				}
 				var fv *types.Var
 				switch x := in.(type) {
 				case *ssa.Store:
-					if fa, ok := x.Addr.(*ssa.FieldAddr); ok {
-						fv = fa.X.Type().Underlying().(*types.Pointer).Elem().Underlying().(*types.Struct).Field(fa.Field)
-					}
+					fv = ownedField(x.Addr)
 				case *ssa.MapUpdate:
 					if u, ok := x.Map.(*ssa.UnOp); ok {
-						if fa, ok := u.X.(*ssa.FieldAddr); ok {
-							fv = fa.X.Type().Underlying().(*types.Pointer).Elem().Underlying().(*types.Struct).Field(fa.Field)
-						}
+						fv = ownedField(u.X)
 					}
 				}
 				l := owner[fv]
@@ -1090,7 +1111,7 @@ func (e *Env) lowerThroughEmbedding(k *scoreKit) {
 			if m == nil {
 				continue
 			}
-			leaves, err := ir.Leaves(e.P.SSAFunc(m), ir.LeafOptions{Forward: true, Effects: true, MaxPaths: 20000})
+			leaves, err := ir.Leaves(e.P.SSAFunc(m), ir.LeafOptions{Forward: true, Effects: true, MaxPaths: 20000, Inline: e.inlineHelpers()})
 			if err != nil {
 				c.Undecided("lower-through-embedding", fname(m), e.P.Pos(m.Pos()), err.Error())
 				continue
